@@ -168,7 +168,26 @@ func (store *HStore) flushdatas(force bool) {
 	}
 }
 
+// stopGC cancels every running GC pass and waits until it has finished.
+func (store *HStore) stopGC() {
+	for {
+		store.gcMgr.mu.RLock()
+		n := len(store.gcMgr.stat)
+		for _, st := range store.gcMgr.stat {
+			st.CancelFlag = true
+		}
+		store.gcMgr.mu.RUnlock()
+		if n == 0 {
+			return
+		}
+		time.Sleep(10 * time.Millisecond)
+	}
+}
+
 func (store *HStore) Close() {
+	// a pass that goes on moving records while the buckets are closed leaves a tree dump
+	// pointing into data files the pass removes afterwards
+	store.stopGC()
 	for _, b := range store.buckets {
 		if b.datas != nil {
 			b.close()
